@@ -18,6 +18,13 @@ def handle (line : String) : String :=
     match parseCps s with
     | some cs => showExcept toString (decode al len cs)
     | none => "bad-op"
+  | ["par", ns] =>   -- the same encodings requested from several threads: the model is a pure function
+    match parseNatList ns with
+    | some vs =>
+      match vs.mapM (fun v => encode al len v) with
+      | some ss => "ok " ++ ";".intercalate (ss.map showCps)
+      | none => "err IndexError"
+    | none => "bad-op"
   | ["fs", canon, s] =>   -- canon: result of uuid.UUID(str) supplied by the harness (`none` | n)
     match parseCps s, (if canon = "none" then some none else canon.toNat?.map some) with
     | some cs, some c => showExcept toString (fromStr (fun _ => c) al len cs)
